@@ -79,6 +79,19 @@ type AtSend struct {
 	Clause *Clause
 }
 
+// StructInv: a fact about fields of a struct that are written only by the
+// listed functions (constructors). It is proved at the end of those functions
+// and assumed for every other pointer to such a struct.
+type StructInv struct {
+	TypeName    string
+	Self        string
+	Established []string
+	Clause      *Clause
+	Pkg         *types.Package
+	rootType    types.Type
+	fields      map[string]bool
+}
+
 type Pred struct {
 	Name   string
 	Params []string
@@ -264,6 +277,35 @@ func (e *Engine) loadContractFile(path string, pkg *types.Package) error {
 			}
 			e.ghosts[g.Name] = g
 			pendingPred, cur, lastClause = nil, nil, nil
+			continue
+		case kw == "structinv":
+			// structinv (c *T) established f1, f2 : <spec over fields that only those functions write>
+			ci := strings.Index(rest, ")")
+			ei := strings.Index(rest, " : ")
+			if ci < 0 || ei < 0 {
+				return fail(fmt.Errorf("expected: structinv (x *T) established f1, f2 : <spec>"))
+			}
+			fd, err := parseFuncHeader("func " + rest[:ci+1] + " m()")
+			if err != nil {
+				return fail(err)
+			}
+			si := &StructInv{Pkg: pkg, Self: fd.Recv.List[0].Names[0].Name}
+			rt := fd.Recv.List[0].Type
+			if st, ok := rt.(*ast.StarExpr); ok {
+				rt = st.X
+			}
+			si.TypeName = types.ExprString(rt)
+			mid := strings.TrimSpace(rest[ci+1 : ei])
+			mid = strings.TrimSpace(strings.TrimPrefix(mid, "established"))
+			for _, f := range splitTop(mid, ',') {
+				if f = strings.TrimSpace(f); f != "" {
+					si.Established = append(si.Established, f)
+				}
+			}
+			si.Clause = &Clause{Text: strings.TrimSpace(rest[ei+3:])}
+			e.structInvs = append(e.structInvs, si)
+			lastClause = si.Clause
+			pendingPred, cur, curMon = nil, nil, nil
 			continue
 		case kw == "owned":
 			// owned T ghost: every access through a *T requires ghost(obj) == 1
